@@ -123,6 +123,18 @@ Theorem C08_history_free_buf :
 Proof. exact parse_buf_history_free. Qed.
 Print Assumptions C08_history_free_buf.
 
+(* (4b) since cfg_scan_fp_end returns to INITIAL, not even the start condition survives: after ANY parse —
+   accepted, rejected inside a string or comment, failed in an included file, out of include depth — the scanner
+   is in INITIAL.  This is what a parse that was running a callback when the other parse was started relies on. *)
+Theorem C08_parse_ends_in_INITIAL :
+  forall strtod_o fuel w c content,
+  l_sc (w_lex (fst (fst (parse_fp_gen strtod_o fuel w c content)))) = INITIAL.
+Proof.
+  intros sd fuel w c content. unfold parse_fp_gen.
+  destruct (parse_internal sd fuel _ _ 0 (pst0 0 None)) as [[w2 c3] rc]. reflexivity.
+Qed.
+Print Assumptions C08_parse_ends_in_INITIAL.
+
 (* (5) cfg_free of the root context resets the scanner *)
 Theorem C08_free_resets :
   forall w c, c_name c = M "root" ->
@@ -159,13 +171,14 @@ Definition left_over (r : pw * cfg * Z) :=
 Definition getint (c : cfg) : list value :=
   match c_opts c with o :: _ => o_vals o | [] => [] end.
 
-(* a text that ends inside a string is rejected; only the start condition survives ... *)
+(* a text that ends inside a string is rejected; nothing survives, not even the start condition
+   (cfg_scan_fp_end goes back to INITIAL: needed when the parse was started from a callback of another parse) *)
 Example C08_ex_unterminated_string :
-  left_over (run wI root "s = ""abc") = (CFG_PARSE_ERROR, dq_str, [], [], q_empty, false, 0, false).
+  left_over (run wI root "s = ""abc") = (CFG_PARSE_ERROR, INITIAL, [], [], q_empty, false, 0, false).
 Proof. vm_compute. reflexivity. Qed.
 
 Example C08_ex_unterminated_comment :
-  left_over (run wI root "i = 5 /* open") = (CFG_PARSE_ERROR, comment, [], [], q_empty, false, 0, false).
+  left_over (run wI root "i = 5 /* open") = (CFG_PARSE_ERROR, INITIAL, [], [], q_empty, false, 0, false).
 Proof. vm_compute. reflexivity. Qed.
 
 (* ... and the next parse does not see it: same context, same return code as on the fresh scanner *)
@@ -179,7 +192,7 @@ Proof. vm_compute. repeat split; reflexivity. Qed.
 
 (* an error inside an included file: both buffers and the frame are gone, the FILE is closed *)
 Example C08_ex_error_in_include :
-  left_over (run wI root "include(""bad.conf"")") = (CFG_PARSE_ERROR, dq_str, [], [], q_empty, false, 0, false).
+  left_over (run wI root "include(""bad.conf"")") = (CFG_PARSE_ERROR, INITIAL, [], [], q_empty, false, 0, false).
 Proof. vm_compute. reflexivity. Qed.
 
 (* out of fuel in the middle of the text *)
